@@ -30,6 +30,8 @@ Programs3Focus ==
 Programs3Quick == { p \in Programs3Focus :
                       \/ (p.kind[A2] = "task" /\ p.ins[A3] = {<<A2, "s.v">>})           \* the two chains ending in a task / an analysis
                       \/ (p.kind[A3] = "task" /\ p.kind[A2] = "task" /\ p.ins[A3] = {<<A1, "s.w">>, <<A2, "s.v">>}) }
+(* task-only programs with value-level declarations: executed end to end by the real worker code *)
+Programs3Task == Progs3({"task"}, Pairs)
 Progs4(K, P(_)) ==
   { [kind |-> (A1 :> k1 @@ A2 :> k2 @@ A3 :> k3 @@ A4 :> k4),
      ins  |-> (A1 :> {} @@ A2 :> i2 @@ A3 :> i3 @@ A4 :> i4),
